@@ -5,6 +5,7 @@ package c14
 import (
 	"bytes"
 	"context"
+	"errors"
 	"fmt"
 	"io"
 	"net"
@@ -279,6 +280,7 @@ func run(c *lib.Ctx) {
 	downness(c, bks, rng)
 	retryAccounting(c, bks)
 	cancelNotFailure(c, bks)
+	clientWriteNotFailure(c, bks)
 	socketBurst(c, bks)
 	c.Count("hook_points_hit", atomic.LoadInt64(&hookHits))
 	c.Floor("quiescent_checks", 100)
@@ -751,6 +753,80 @@ func cancelNotFailure(c *lib.Ctx, bks []*backend) {
 			}
 			if code != 200 || rec.Header().Get("X-Backend") != "0" {
 				c.Violation("C14/down-with-fewer-than-max_fails", fmt.Sprintf("after %d client cancellations and no failure, the next request was answered %d by backend %q instead of being forwarded to backend 0", st.N, code, rec.Header().Get("X-Backend")), map[string]interface{}{"setting": st})
+			}
+		}
+		waitUntil(func() bool { return conns(u.hosts[0]) == 0 }, 5*time.Second)
+		u.up.Stop()
+	}
+}
+
+// failWriter is a client connection that breaks once the response header has
+// been sent: every body write fails (what a write timeout on the front server,
+// or a client that went away without the request context noticing first,
+// looks like to the proxy).
+type failWriter struct {
+	h      http.Header
+	code   int
+	writes int64
+}
+
+func (f *failWriter) Header() http.Header { return f.h }
+func (f *failWriter) WriteHeader(c int)   { f.code = c }
+func (f *failWriter) Write([]byte) (int, error) {
+	atomic.AddInt64(&f.writes, 1)
+	return 0, errors.New("write tcp 127.0.0.1:2015->127.0.0.1:40000: write: broken pipe")
+}
+
+// clientWriteNotFailure: the backend answers correctly and the write of its
+// body to the CLIENT fails. The backend did nothing wrong: no failure is
+// recorded against it and the next request is forwarded to it.
+func clientWriteNotFailure(c *lib.Ctx, bks []*backend) {
+	atomic.StoreInt32(&delayOn, 0)
+	rounds := c.Pick(8, 60)
+	for r := 0; r < rounds; r++ {
+		gate := make(chan struct{})
+		close(gate)
+		for _, b := range bks {
+			b.gate.Store(gate)
+		}
+		st := setting{Hosts: 1 + r%2, Policy: "first", MaxConns: 0, MaxFails: 1 + r%3, FailTimeout: "5s", TryDuration: []string{"0", "200ms"}[r%2], N: 1 + r%3}
+		c.Journal("C14 client-write-not-failure %s", lib.JSON(st))
+		u, err := mk(st, bks)
+		if err != nil {
+			c.Violation("harness/upstream", err.Error(), st)
+			return
+		}
+		var writes int64
+		for i := 0; i < st.N; i++ {
+			req := httptest.NewRequest("GET", "/clientgone", nil)
+			req.Header.Set("X-Mode", "ok")
+			req.Header.Set("X-Rid", fmt.Sprintf("cw%d-%d", r, i))
+			fw := &failWriter{h: http.Header{}}
+			u.p.ServeHTTP(fw, req)
+			writes += atomic.LoadInt64(&fw.writes)
+		}
+		c.Eval(1)
+		if writes == 0 {
+			c.Inconclusive(fmt.Sprintf("client-write-not-failure round %d: no body write reached the client connection", r))
+			u.up.Stop()
+			continue
+		}
+		c.Count("client_write_failure_rounds", 1)
+		c.Nontrivial(fmt.Sprintf("client-write-not-failure/%d", r))
+		if f := fails(u.hosts[0]); f != 0 {
+			c.Violation("C14/client-write-error-counted-as-failure", fmt.Sprintf("backend 0 answered %d requests correctly; writing its response body to the client failed (broken pipe); its fail count is %d (max_fails %d)", st.N, f, st.MaxFails),
+				map[string]interface{}{"setting": st, "fails": f})
+		} else {
+			req := httptest.NewRequest("GET", "/after", nil)
+			req.Header.Set("X-Mode", "ok")
+			req.Header.Set("X-Rid", fmt.Sprintf("cw%d-after", r))
+			rec := httptest.NewRecorder()
+			code, _ := u.p.ServeHTTP(rec, req)
+			if code == 0 {
+				code = rec.Code
+			}
+			if code != 200 || rec.Header().Get("X-Backend") != "0" {
+				c.Violation("C14/down-with-fewer-than-max_fails", fmt.Sprintf("after %d failed writes to clients and no backend failure, the next request was answered %d by backend %q instead of being forwarded to backend 0", st.N, code, rec.Header().Get("X-Backend")), map[string]interface{}{"setting": st})
 			}
 		}
 		waitUntil(func() bool { return conns(u.hosts[0]) == 0 }, 5*time.Second)
